@@ -295,6 +295,14 @@ def programs(draw, q):
         extra = [["call", i, [["lit", a]]], ["next", 0], ["next", 0], ["call", i, [["lit", b]]], ["next", 0], ["next", 0]]
         at = draw(st.integers(0, len(ops)))
         ops = ops[:at] + extra + ops[at:]
+    if draw(st.integers(0, 3)) == 0:
+        # one position observed with many tuple shapes of two element types (union size limits of the default chain)
+        i = len(prog["funcs"])
+        prog["funcs"].append({"idx": i, "kind": "func", "params": {"ps": [{"kind": "poskw", "default": None, "name": "p%dx0" % i}], "varargs": False, "varkw": False},
+                              "anno": False, "flavour": "plain", "rebind": "no", "callee": None, "callee_args": [], "catch": False, "recurse": False,
+                              "exit": "param", "yields": [], "awaits": 0})
+        shapes = draw(st.lists(st.tuples(st.sampled_from([["lit", 1], ["lit", "s"], ["lit", 1.5]]), st.integers(1, 6)), min_size=6, max_size=9, unique=True))
+        ops = ops + [["call", i, [["tuple", [e] * n]]] for e, n in shapes]
     prog["ops"] = ops
     prog["drain"] = True
     prog["repeat"] = 1
